@@ -2,6 +2,7 @@ SPECIFICATION Spec
 CONSTANTS
   MaxDev = 1
   NamesSet = {"utf8", "legacy"}
+  SchemaSet = {"prometheus", "thanos"}
   CoreOnly = FALSE
   Gaps = {}
 INVARIANTS EmitCase
